@@ -40,5 +40,8 @@ def run(ctx, rep):
         rep.floor("R01e-" + k.split("::")[-1], v, 2, "calls to %s in handle_heartbeat_submessage" % k)
     ng = R.periodic_heartbeat_solicits_ack(fx, rep, "R01g")
     rep.floor("R01g", ng, 3, "periodic heartbeat + reader must_send_acknacks sites")
+    from rules.c05 import reassembly_order
+    nr = reassembly_order(fx, rep)
+    rep.floor("R05e", nr, 1, "payload appends in reconstruct_data_from_frag")
     n6 = R.sends_guarded_by_first_relevant(fx, b4, adder(rep, b4), "R01f")
     rep.floor("R01f", n6, 4, "DATA/DATA_FRAG constructions in write_message_reliable")
